@@ -197,8 +197,15 @@ def stmt_decode(kindB, k, b):
 
 
 def make_stmt(kindB, b):
-    n0 = stmt_decode(kindB, 0, b)[1].count
+    alone = stmt_decode(kindB, 0, b)
+    n0 = alone[1].count
+    # reference = this decoder alone: the payload, or - when a size line of body A (7 bytes with its extension) is longer than
+    # the buffer - the refusal the stated tolerance allows (a false alarm of the first version of this family with buffer 3)
+    wantA = alone[0]
+    assert wantA == ("ok", STMT_A_PAYLOAD) or (wantA == ("reject", None) and b < 7), (wantA, b)
     wantB = ("ok", STMT_BS[kindB][1]) if STMT_BS[kindB][1] is not None else ("reject", None)
+    if b < 7 and wantB[0] == "ok":
+        wantB = run_decoder(stubs.SymStream(len(STMT_BS[kindB][0]), [], data=STMT_BS[kindB][0]), b)
     assert 0 < n0 < 2 ** 10, n0
 
     def q(b0: bool, b1: bool, b2: bool, b3: bool, b4: bool, b5: bool, b6: bool, b7: bool, b8: bool, b9: bool):
@@ -211,7 +218,7 @@ def make_stmt(kindB, b):
         if st.result is None:
             return "statement %d of %d not reached" % (k, n0)
         cover("ok")
-        if resA != ("ok", STMT_A_PAYLOAD):
+        if resA != wantA:
             return ("another thread decoded a chunked body (%s) in front of statement %d of %d of this decoder: result %r, "
                     "payload %r" % (kindB, k, n0, resA, STMT_A_PAYLOAD))
         if st.result != wantB:
